@@ -60,8 +60,11 @@ Str ==
 Draw ==
   /\ s.kind # "none"
   /\ \E an \in BOOLEAN, f \in FS :
-       \E rp \in (IF an THEN {1, 2} ELSE {0}), c \in (IF an THEN BOOLEAN ELSE {FALSE}) :
-         LET a == [Act("draw") EXCEPT !.animated = an, !.rep = rp, !.cached = c, !.fault = f]
+       \E rp \in (IF an THEN {1, 2} ELSE {0}), c \in (IF an THEN BOOLEAN ELSE {FALSE}),
+          d \in {""} \cup (IF an /\ s.anim /\ s.size # "dyn" /\ f = "none"
+                           THEN SizeSet \ {s.size} ELSE {}) :
+         LET a == [Act("draw") EXCEPT !.animated = an, !.rep = rp, !.cached = c, !.fault = f,
+                                       !.during = d]
              r == Apply(s, a) IN En(a) /\ s' = r.st /\ out' = r.out
 Iter ==
   /\ s.kind # "none" /\ s.it.ph \in {"none", "closed"}
@@ -120,9 +123,11 @@ TellTracksLastYield == TellOK(s, out)
 ExactlyRepeatPasses == RepeatOK(s, out)
 
 RenderOps == {"format", "str", "draw", "next", "iter", "nframes"}
-(* a render never alters the size setting; an animated draw never moves the frame *)
+(* a render never alters the size setting (afterwards it is what it was, or what the  *)
+(* user set while the render was running); an animated draw never moves the frame      *)
 SizeNeverChangedByRender ==
-  [][out'.a.op \in RenderOps => s'.size = s.size]_vars
+  [][out'.a.op \in RenderOps =>
+       s'.size = IF out'.a.during # "" THEN out'.a.during ELSE s.size]_vars
 AnimatedDrawKeepsFrame ==
   [][out'.a.op = "draw" /\ out'.a.animated /\ s.anim => s'.tell = s.tell]_vars
 RejectedLeavesStateAlone ==
